@@ -799,6 +799,10 @@ def rule_short_read_keeps_data(prog, fixture=False):
                     stop = True
                     break
                 if n.get("k") == "CXXThrowExpr":
+                    if any(truth and (strip_all(a) or {}).get("k") == "CXXMemberCallExpr" and
+                           (strip((strip_all(a))["c"][0]) or {}).get("n") == "empty" for a, truth in (g.truths(n) or [])):
+                        stop = True         # nothing was read at all: an error may be raised
+                        break
                     problem = "%s: a short read raises an exception" % fn.loc(n)
                     break
             if not stop:
